@@ -175,10 +175,12 @@ def makeReq (e : Str × Str) : Option Req :=
     if realPkg ≠ [] then (realPkg, realVer, some e.1) else (e.1, e.2, none)
   if ver.any (fun c => c = ':' || c = '/') then none else some ⟨pkg, ka, ver⟩
 
-/-- `slices.IndexFunc(reqs, same PackageKey)` then replace, else append -/
+/-- `slices.IndexFunc(reqs, same MakeRequirementKey)` then replace, else append.  The key is the package together with the
+`KnownAs` alias (fix 8304c0d6; it was the package alone, so `"bar": "npm:foo@^2"` in devDependencies replaced the plain
+`"foo"` of dependencies) -/
 def upsert : List Req → Req → List Req
   | [], r => [r]
-  | x :: xs, r => if x.name = r.name then r :: xs else x :: upsert xs r
+  | x :: xs, r => if x.name = r.name ∧ x.knownAs = r.knownAs then r :: xs else x :: upsert xs r
 
 def addSec (rs : List Req) (s : Sec) : List Req :=
   s.foldl (fun rs e => match makeReq e with | some r => upsert rs r | none => rs) rs
